@@ -5,9 +5,10 @@ open Aqv Aqv.Proto Aqv.Keystore
 
 /-!
   Model driver for C20.  Case lines (see go/harness/cmd/c20):
-    dk  <exp> <file: 11 fields> <pw> <kdfO> <ksO> <cbcO> <addrO>            -> ok <key32> <addr> | err <class> | panic
-    gk  <exp> <acct> <file: 11 fields> <pw> <kdfO> <ksO> <cbcO> <addrO>     -> ok <addr> | err <class> | panic
-    enc <d32> <addr> <id> <pw> <salt> <iv> <n> <p> <kdfO> <ksO>             -> ok <file: 11 fields> <address> <id>
+    dk  <exp> <file: 12 fields> <pw> <kdfO> <ksO> <cbcO> <addrO>            -> ok <key32> <addr> | err <class> | panic
+    im  <exp> <file: 12 fields> <pw> <kdfO> <ksO> <cbcO> <addrO>            -> ok <addr> | err <class> | panic   (KeyStore.Import)
+    gk  <exp> <acct> <file: 12 fields> <pw> <kdfO> <ksO> <cbcO> <addrO>     -> ok <addr> | err <class> | panic
+    enc <d32> <addr> <id> <pw> <salt> <iv> <n> <p> <kdfO> <ksO>             -> ok <file: 12 fields> <id>
   The primitives (`Prims`) are instantiated with the VALUES supplied by the harness (finite tables) and the executable
   Keccak-256; a value the model asks for that is not in the table shows up as a disagreement, never as agreement.
 -/
@@ -31,12 +32,12 @@ def parseKp (s : String) : List (Bytes × JVal) :=
 
 def parseFile (fs : List String) : Option KeyFile :=
   match fs with
-  | [jo, vt, v1, v3, ver, cip, ct, iv, kdf, mac, kp] =>
+  | [jo, vt, v1, v3, ver, cip, ct, iv, kdf, mac, kp, addr] =>
     let verTop := match vt.toList with
       | 'S' :: r => some (hexB (String.ofList r))
       | _ => none
     some { jsonOk := jo == "1", verTop := verTop, v1ok := v1 == "1", v3ok := v3 == "1", version3 := (ver.toInt?).getD 0,
-           address := [], id := [],
+           address := hexB addr, id := [],
            crypto := { cipher := hexB cip, ciphertext := hexB ct, iv := hexB iv, kdf := hexB kdf, kdfparams := parseKp kp,
                        mac := hexB mac } }
   | _ => none
@@ -92,6 +93,7 @@ def errName : Err → String
   | .json => "json" | .version => "version" | .cipher => "cipher"
   | .hexMac => "hex" | .hexIv => "hex" | .hexCt => "hex" | .hexSalt => "hex"
   | .kdf => "kdf" | .prf => "prf" | .unsupportedKdf => "unsupportedKdf" | .decrypt => "decrypt" | .mismatch => "mismatch"
+  | .kdfParams => "kdfParams" | .ivLength => "ivLength" | .corrupted => "corrupted"
 
 def renderKey (full : Bool) : Res Key → String
   | .ok k => if full then s!"ok {hexOfBytes (paddedBigBytes k.d 32)} {hexOfBytes k.addr}" else s!"ok {hexOfBytes k.addr}"
@@ -103,6 +105,7 @@ def specAccepts (exp go : String) (full : Bool) : Bool :=
   if go.startsWith "panic" then false else
   match splitC exp ':' with
   | ["W"] => go.startsWith "err"
+  | ["N"] => true     -- a file without an address field (not written by this keystore): only "no crash" is required
   | [kind, key, addr] =>
     let orig := if full then s!"ok {key} {addr}" else s!"ok {addr}"
     if kind == "R" then go == orig else go.startsWith "err" || go == orig
@@ -143,17 +146,21 @@ def handle (l : String) : String :=
   let (inp, go) := splitCase l
   match fields inp with
   | "dk" :: exp :: rest =>
-    if rest.length == 16 then
-      let ffs := rest.take 11
-      match rest.drop 11 with
-      | [pw, kdfO, ksO, cbcO, adO] => runFile true exp none ffs pw kdfO ksO cbcO adO go
+    if rest.length == 17 then
+      match rest.drop 12 with
+      | [pw, kdfO, ksO, cbcO, adO] => runFile true exp none (rest.take 12) pw kdfO ksO cbcO adO go
+      | _ => "bad-op\tspec-ok"
+    else "bad-op\tspec-ok"
+  | "im" :: exp :: rest =>       -- KeyStore.Import: bare DecryptKey, the stored account's address is observed
+    if rest.length == 17 then
+      match rest.drop 12 with
+      | [pw, kdfO, ksO, cbcO, adO] => runFile false exp none (rest.take 12) pw kdfO ksO cbcO adO go
       | _ => "bad-op\tspec-ok"
     else "bad-op\tspec-ok"
   | "gk" :: exp :: acct :: rest =>
-    if rest.length == 16 then
-      let ffs := rest.take 11
-      match rest.drop 11 with
-      | [pw, kdfO, ksO, cbcO, adO] => runFile false exp (some (hexB acct)) ffs pw kdfO ksO cbcO adO go
+    if rest.length == 17 then
+      match rest.drop 12 with
+      | [pw, kdfO, ksO, cbcO, adO] => runFile false exp (some (hexB acct)) (rest.take 12) pw kdfO ksO cbcO adO go
       | _ => "bad-op\tspec-ok"
     else "bad-op\tspec-ok"
   | ["enc", d, addr, id, pw, salt, iv, n, p, kdfO, ksO] =>
@@ -166,7 +173,7 @@ def handle (l : String) : String :=
     -- passphrase) to the key that was stored.
     let specOk := match fields go with
       | "ok" :: rest =>
-        (match parseFile (rest.take 11) with
+        (match parseFile (rest.take 12) with
          | some f => (match decryptKey P f (hexB pw) with
                       | .ok k => k.d == beNat (hexB d)
                       | _ => false)
